@@ -181,6 +181,23 @@ def cross_table(fb):
     return out
 
 
+def _const_ordering(res):
+    """Some(Less/Equal/Greater) -> -1/0/1, None -> "none"; anything else: not a constant ordering"""
+    if isinstance(res, Enum):
+        n = getattr(res, "name", None)
+        if n == "None" or (n is None and res.variant == 0 and not res.fields):
+            return "none"
+        if res.fields:
+            o = res.fields[0]
+            if isinstance(o, Enum):
+                on = getattr(o, "name", None)
+                if on in ("Less", "Equal", "Greater"):
+                    return {"Less": -1, "Equal": 0, "Greater": 1}[on]
+            if isinstance(o, int) and not isinstance(o, bool) and o in (-1, 0, 1, 255):
+                return -1 if o == 255 else o
+    return None
+
+
 def _holds(op, l, r):
     return {"eq": l == r, "ne": l != r, "lt": l < r, "le": l <= r, "gt": l > r, "ge": l >= r}[op]
 
@@ -211,11 +228,22 @@ def rule_cross(ctx, rule):
                     continue
                 ad, cb = env["a"] * env["d"], env["c"] * env["b"]
                 if is_order:
+                    want = (ad > cb) - (ad < cb)
                     if final is None:
-                        bad = bad or ("a path (tests %s) returns without comparing anything" % [(t[0], repr(t[1]), repr(t[2]), t[3]) for t in tests])
+                        # no comparison of two values at the end: the path answers with a constant ordering (a sign shortcut);
+                        # that constant must be the order of the ratios at every point the path's tests admit
+                        const = _const_ordering(res)
+                        if const is None:
+                            unknown_const = True
+                            continue
+                        got = const
+                        if got != want and bad is None:
+                            bad = "for %d/%d against %d/%d (after the tests %s) the function answers %s without comparing, but the ratios are ordered %s" % (
+                                env["a"], env["b"], env["c"], env["d"], [(t[0], repr(t[1]), repr(t[2]), t[3]) for t in conds],
+                                {-1: "Less", 0: "Equal", 1: "Greater", "none": "None (incomparable)"}[got], want)
                         continue
                     l, r = _ev(final[1], env), _ev(final[2], env)
-                    got, want = (l > r) - (l < r), (ad > cb) - (ad < cb)
+                    got = (l > r) - (l < r)
                 else:
                     if final is not None:
                         got = _holds(final[0], _ev(final[1], env), _ev(final[2], env))
@@ -902,4 +930,260 @@ def rule_exact_arith(ctx, rule, ops):
         ctx.oblige(bad is None)
         if bad:
             ctx.report(rule, NAMES.get(opn, opn) + "/grid", "exact arithmetic is not exact: " + bad, where_of(f))
+    return decided
+
+
+# ------------------------------------------------------------------------------------------------ = / order on every pair of kinds
+
+REALS = [float("-inf"), -1.5, -1.0, -0.0, 0.0, 0.5, 1.0, 2.0, float("inf"), float("nan")]
+
+
+def _f32(v):
+    import struct
+    try:
+        return struct.unpack("f", struct.pack("f", float(v)))[0]
+    except OverflowError:
+        return float("inf") if v > 0 else float("-inf")
+
+
+def _evf(x, env):
+    """value of a symbolic integer / real expression at a grid point (None: not evaluable)"""
+    import math
+    from .absint import Sym
+    if isinstance(x, Sym):
+        if not x.args:
+            return env.get(x.op)
+        vs = [_evf(a_, env) for a_ in x.args]
+        if any(v is None for v in vs):
+            return None
+        if x.op == "ToReal":
+            return _f32(vs[0])
+        if x.op == "FNeg":
+            return -vs[0]
+        if x.op == "FAbs":
+            return abs(vs[0])
+        if x.op in ("FDiv", "FMul", "FAdd", "FSub"):
+            l, r = float(vs[0]), float(vs[1])
+            try:
+                return _f32({"FDiv": lambda: l / r, "FMul": lambda: l * r, "FAdd": lambda: l + r, "FSub": lambda: l - r}[x.op]())
+            except ZeroDivisionError:
+                if l != l or l == 0:
+                    return float("nan")
+                return math.copysign(float("inf"), l) * math.copysign(1.0, r)
+        return _ev(x, env)
+    return x
+
+
+def _test_holds(t, env):
+    import math
+    op, l, r = t[0], _evf(t[1], env), (_evf(t[2], env) if t[2] is not None else None)
+    if l is None or (t[2] is not None and r is None):
+        return None
+    if op == "signneg":
+        return math.copysign(1.0, l) < 0
+    if op == "signpos":
+        return math.copysign(1.0, l) > 0
+    if op == "isnan":
+        return l != l
+    if op == "isinf":
+        return l in (float("inf"), float("-inf"))
+    if op == "isfinite":
+        return l == l and l not in (float("inf"), float("-inf"))
+    return _holds(op, l, r)
+
+
+def kind_cmp_table(fb, fname, n_tests=5):
+    """`fname` (Number::eq / partial_cmp / exact_eqv) on every ordered pair of kinds {Integer, Rational, Real} with symbolic payloads;
+    every test on a symbolic value is explored both ways.  {(ka, kb): [path]}, path = {tests, decisive, result} | {stuck}."""
+    from .absint import Sym
+    import itertools
+    nv = dict((n, i) for i, n in fb.variants("values::Number"))
+    f = fb.find(fname)
+    out = {}
+    FLOAT_TESTS = {"is_sign_negative": "signneg", "is_sign_positive": "signpos", "is_nan": "isnan", "is_infinite": "isinf", "is_finite": "isfinite"}
+    for ka, kb in itertools.product(("Integer", "Rational", "Real"), repeat=2):
+        paths, seen = [], set()
+        for schedule in itertools.product((True, False), repeat=n_tests):
+            inames, rnames = iter("abcd"), iter("xy")
+
+            def mk(kind):
+                if kind == "Integer":
+                    e = Enum(nv["Integer"], [Sym(next(inames))])
+                elif kind == "Rational":
+                    e = Enum(nv["Rational"], [Sym(next(inames)), Sym(next(inames))])
+                else:
+                    e = Enum(nv["Real"], [Sym(next(rnames))])
+                e.name = kind
+                return e
+            A, B = mk(ka), mk(kb)
+            pc, dec, k = [], [], [0]
+
+            def sched(entry):
+                i = k[0]
+                k[0] += 1
+                if i >= len(schedule):
+                    raise absint.Stuck("more than %d tests on symbolic values on one path" % len(schedule))
+                pc.append(entry + (schedule[i],))
+                return schedule[i]
+
+            def icpt(mc, cn, args, tt, g):
+                end = cn.rsplit("::", 1)[-1]
+                symb = any(isinstance(x, Sym) for x in args)
+                if cn.endswith("NumCast::from") and len(args) == 1:
+                    return some(Sym("ToReal", args[0])) if isinstance(args[0], (Sym, int)) else UNKNOWN
+                if end in ("zero", "one") and ("Zero::" in cn or "One::" in cn) and not args:
+                    return 0.0 if end == "zero" else 1.0
+                if end in FLOAT_TESTS and len(args) == 1 and symb:
+                    return sched((FLOAT_TESTS[end], args[0], None))
+                if end in ("partial_cmp", "cmp") and len(args) == 2 and symb:
+                    dec.append((end, args[0], args[1]))
+                    return UNKNOWN
+                if end in ("eq", "ne", "lt", "le", "gt", "ge") and len(args) == 2 and symb and ("cmp::" in cn):
+                    return sched((end, args[0], args[1]))
+                if end in ("div", "mul", "add", "sub") and "std::ops::" in cn and len(args) == 2 and symb and \
+                        (tt.get("fn") or {}).get("resolved") is None:
+                    return Sym("F" + end.capitalize(), args[0], args[1])
+                if end == "neg" and "std::ops::Neg" in cn and symb and (tt.get("fn") or {}).get("resolved") is None:
+                    return Sym("FNeg", args[0])
+                if end == "abs" and symb and "Float" in cn:
+                    return Sym("FAbs", args[0])
+                if end == "mul" and "ops::Mul" in cn and len(args) == 2 and symb:
+                    return Sym("Mul", args[0], args[1])
+                return NOT
+
+            def symcmp(op, x, y):
+                cf, cb = absint.CUR_F[0], absint.CUR_B[0]
+                term = cf.blocks[cb]["term"] if cf is not None and cb is not None else {}
+                if term.get("k") == "assert":
+                    return bool(term.get("expected"))
+                return sched((op, x, y))
+            mc = Machine(fb, intercept=icpt, max_visits=4, budget=400)
+            absint.SYM_COMPARE = symcmp
+            res = None
+            try:
+                res = mc.run(f, [A, B])
+            except absint.Stuck as e:
+                if not dec:
+                    sig = ("stuck", str(e))
+                    if sig not in seen:
+                        seen.add(sig)
+                        paths.append({"stuck": str(e)})
+                    continue
+                res = "decisive-comparison-returned"
+            except absint.Loop as e:
+                paths.append({"stuck": str(e)})
+                continue
+            finally:
+                absint.SYM_COMPARE = None
+            if k[0] < len(schedule) and any(schedule[k[0]:]):
+                continue
+            sig = (tuple((p[0], repr(p[1]), repr(p[2]), p[3]) for p in pc), tuple((x[0], repr(x[1]), repr(x[2])) for x in dec), repr(res))
+            if sig in seen:
+                continue
+            seen.add(sig)
+            paths.append({"tests": list(pc), "decisive": list(dec), "result": res})
+        out[(ka, kb)] = paths
+    return f, out
+
+
+def rule_kind_cmp(ctx, rule):
+    """= and the order on every pair of kinds: at every grid point (integers -2..2, ratios with denominators 1..3, ten reals
+    including both zeros, the infinities and NaN) the path the point selects answers with the mathematical order of the two values
+    (an exact operand facing an inexact one converted to binary32 first)"""
+    fb = ctx.fb()
+    from .ctx import where_of
+    from fractions import Fraction
+    import itertools
+    decided = 0
+    for fname, short in (("<values::Number as std::cmp::PartialEq>::eq", "eq"), ("<values::Number as std::cmp::PartialOrd>::partial_cmp", "partial_cmp")):
+        try:
+            f, table = kind_cmp_table(fb, fname)
+        except mir.AnchorMissing as e:
+            ctx.undecided(rule, short, str(e))
+            continue
+        for (ka, kb), paths in sorted(table.items()):
+            key = "%s/%s-%s" % (short, ka, kb)
+            good = [p for p in paths if "stuck" not in p]
+            if not good:
+                ctx.undecided(rule, key, "cannot follow %s on %s x %s (%s)" % (short, ka, kb, (paths[0]["stuck"] if paths else "no path")), where_of(f))
+                continue
+            isyms = ["a"] + (["b"] if ka == "Rational" else []) if ka != "Real" else []
+            nxt = chr(ord(isyms[-1]) + 1) if isyms else "a"
+            jsyms = ([nxt] + ([chr(ord(nxt) + 1)] if kb == "Rational" else [])) if kb != "Real" else []
+            rs = (["x"] if ka == "Real" else []) + ((["y"] if ka == "Real" else ["x"]) if kb == "Real" else [])
+            dens = set(([isyms[1]] if ka == "Rational" else []) + ([jsyms[1]] if kb == "Rational" else []))
+            names = isyms + jsyms + rs
+            doms = [range(1, 4) if n_ in dens else (REALS if n_ in rs else range(-2, 3)) for n_ in names]
+            bad, points, uncovered = None, 0, 0
+            for vals in itertools.product(*doms):
+                env = dict(zip(names, vals))
+
+                def val(kind, syms, r):
+                    if kind == "Integer":
+                        return Fraction(env[syms[0]])
+                    if kind == "Rational":
+                        return Fraction(env[syms[0]], env[syms[1]])
+                    return env[r]
+                L = val(ka, isyms, "x")
+                Rv = val(kb, jsyms, "y" if ka == "Real" else "x")
+                if isinstance(L, float) != isinstance(Rv, float):
+                    L, Rv = (_f32(L) if not isinstance(L, float) else L), (_f32(Rv) if not isinstance(Rv, float) else Rv)
+                nan = (isinstance(L, float) and L != L) or (isinstance(Rv, float) and Rv != Rv)
+                want = "none" if nan else ((L > Rv) - (L < Rv))
+                hit = None
+                for p in good:
+                    hs = [_test_holds(t, env) for t in p["tests"][:len(p["tests"])]]
+                    conds = p["tests"]
+                    final_bool = None
+                    if short == "eq" and conds and isinstance(p["result"], bool) and p["result"] == conds[-1][3]:
+                        conds, final_bool = conds[:-1], conds[-1]
+                    hs = [_test_holds(t, env) for t in conds]
+                    if None in hs or any(h != t[3] for h, t in zip(hs, conds)):
+                        continue
+                    hit = (p, conds, final_bool)
+                    break
+                if hit is None:
+                    uncovered += 1
+                    continue
+                p, conds, final_bool = hit
+                if short == "partial_cmp":
+                    if p["decisive"]:
+                        d_ = p["decisive"][-1]
+                        l, r = _evf(d_[1], env), _evf(d_[2], env)
+                        if l is None or r is None:
+                            uncovered += 1
+                            continue
+                        got = "none" if (l != l or r != r) else ((l > r) - (l < r))
+                    else:
+                        got = _const_ordering(p["result"])
+                        if got is None:
+                            uncovered += 1
+                            continue
+                else:
+                    want = (want == 0)
+                    if final_bool is not None:
+                        got = _test_holds(final_bool[:3] + (True,), env)
+                    elif isinstance(p["result"], bool):
+                        got = p["result"]
+                    else:
+                        uncovered += 1
+                        continue
+                points += 1
+                if got != want and bad is None:
+                    def lit(kind, syms, r):
+                        return ("%d/%d" % (env[syms[0]], env[syms[1]])) if kind == "Rational" else (str(env[syms[0]]) if kind == "Integer" else repr(env[r]))
+                    bad = "(%s %s %s) answers %s, the numbers are ordered %s (tests on the way: %s)" % (
+                        "=" if short == "eq" else "compare", lit(ka, isyms, "x"), lit(kb, jsyms, "y" if ka == "Real" else "x"),
+                        {-1: "Less", 0: "Equal", 1: "Greater", "none": "incomparable", True: "#t", False: "#f"}.get(got, got),
+                        {-1: "Less", 0: "Equal", 1: "Greater", "none": "incomparable", True: "equal", False: "not equal"}.get(want, want),
+                        [(t[0], repr(t[1]), repr(t[2]), t[3]) for t in conds])
+            if points:
+                decided += 1
+            ctx.inst(rule, key, {"points": points, "points_without_a_followed_path": uncovered, "paths": len(good)})
+            if not points:
+                ctx.undecided(rule, key, "no grid point selects a path that could be followed", where_of(f))
+                continue
+            ctx.oblige(bad is None)
+            if bad:
+                ctx.report(rule, key, "%s on %s x %s does not give the mathematical order: %s" % (short, ka, kb, bad), where_of(f))
     return decided
